@@ -1511,4 +1511,121 @@ theorem ReachableF.pinv {g : Graph} (hsym : EdgeSym g) {ncls : Nat} {store : Lis
   | init hidden => exact PInv.init g ncls store hidden
   | step s w out fuel _ hw hf ih => exact resume_inv g hsym s w out fuel hf hw ih
 
+/-! ## the start events of a step -/
+
+theorem startOK_vis (g : Graph) (s : State) (w : Nat) (e : Event) (h : startOK (vis g s) w e) : startOK g w e := by
+  cases e with
+  | start wid cls uid locs unk =>
+    obtain ⟨h1, n, ph, h2, h3⟩ := h
+    exact ⟨by rw [h1, vis_worker], n, ph, by rw [h2, vis_clsName], by rw [← vis_idIn g s]; exact h3⟩
+  | _ => trivial
+
+theorem StartsOK.of_vis {g : Graph} {s : State} {w : Nat} {evs : List Event} (h : StartsOK (vis g s) w evs) : StartsOK g w evs :=
+  fun e he => startOK_vis g s w e (h e he)
+
+theorem StartsOK.raise {g : Graph} {w : Nat} {evs : List Event} (h : StartsOK g w evs) (wid what : String) :
+    StartsOK g w (evs ++ [Event.raise wid what]) :=
+  h.append (fun e he => by simp only [List.mem_singleton] at he; rw [he]; trivial)
+
+theorem runLoop_starts (g : Graph) (hsym : EdgeSym g) (w : Nat) (fuel : Nat) (s : State) (evs : List Event)
+    (h : StartsOK g w evs) : StartsOK g w (runLoop g w fuel s evs).2 := by
+  induction fuel generalizing s evs with
+  | zero => exact h.raise _ _
+  | succ fuel ih =>
+    unfold runLoop
+    dsimp only
+    obtain ⟨s1, _, hst, _⟩ := iterL_ok g hsym (s.setWd w (fun d => { d with pc := .loop })) w
+    have hst' := hst.of_vis
+    split
+    · next s2 e heq => rw [heq] at hst'; exact ih s2 _ (h.append hst')
+    · next s2 e heq => rw [heq] at hst'; exact h.append hst'
+    · next s2 e heq => rw [heq] at hst'; exact h.append hst'
+    · next s2 e what heq => rw [heq] at hst'; exact (h.append hst').raise _ _
+
+theorem startTest_starts (g : Graph) (s : State) (n w : Nat) (ph : Phase) (dir : Dir) (hid : g.idIn w n = true) :
+    StartsOK g w (startTest g s n w ph dir).2.1 := by
+  unfold startTest
+  dsimp only
+  split
+  all_goals
+    intro e he
+    simp only [List.mem_singleton] at he
+    rw [he]
+    exact ⟨rfl, n, ph, rfl, hid⟩
+
+theorem continueAfter_starts (g : Graph) (hsym : EdgeSym g) (w n : Nat) (phase : Phase) (dir : Dir) (fuel : Nat)
+    (s : State) (ok : Bool) (evs : List Event) (hid : g.idIn w n = true) (h : StartsOK g w evs) :
+    StartsOK g w (resumeTest.continueAfter g w n phase dir fuel s ok evs).2 := by
+  unfold resumeTest.continueAfter
+  dsimp only
+  split
+  · exact h.append (startTest_starts g s n w .main dir hid)
+  · generalize hsF : finishTraverse (if (phase == Phase.pre) = true then
+          s.setNd n (fun d => { d with results := d.results ++ (s.wd w).preResults.drop d.results.length })
+        else s) n w = sF
+    have hd : DoorsOnly (afterTraverse (vis g sF) sF w n ((s.wd w).path.getD ((s.wd w).path.length - 2) 0) dir).2.1 := by
+      -- the events of `afterTraverse` are those of the run decision and of `reverse_node`
+      unfold afterTraverse
+      cases hrd : runDecision (vis g sF) sF n w with
+      | error e => exact DoorsOnly.nil
+      | ok r =>
+        obtain ⟨run, s1, evs1⟩ := r
+        have hd1 := runDecision_doors (vis g sF) sF n w run s1 evs1 hrd
+        cases dir with
+        | up => exact hd1
+        | down =>
+          dsimp only
+          split
+          · exact hd1
+          · split
+            · split
+              · exact hd1
+              · split
+                · exact hd1
+                · next s3 evs3 hr => exact hd1.append (reverseNode_qt w (vis g sF) _ n w s3 evs3 hr).2
+            · split <;> exact hd1
+    generalize afterTraverse (vis g sF) sF w n ((s.wd w).path.getD ((s.wd w).path.length - 2) 0) dir = r at hd
+    obtain ⟨s1, e2, fl⟩ := r
+    have h2 : StartsOK g w (evs ++ e2) := h.append (hd.startsOK g w)
+    cases fl with
+    | raise what => exact h2.raise _ _
+    | cont => exact runLoop_starts g hsym w fuel s1 _ h2
+    | suspend => exact runLoop_starts g hsym w fuel s1 _ h2
+    | exit => exact runLoop_starts g hsym w fuel s1 _ h2
+
+theorem reportOutcome_starts (g : Graph) (s : State) (w n : Nat) (phase : Phase) (uid : String) (wait : Nat) (out : Outcome) :
+    StartsOK g w (reportOutcome g s w n phase uid wait out).2 := by
+  unfold reportOutcome
+  dsimp only
+  split
+  · split
+    all_goals
+      intro e he
+      simp only [List.mem_singleton] at he
+      rw [he]; trivial
+  · exact StartsOK.nil g w
+
+/-- every start event of a step of worker `w` carries `w`'s id and the class of a copy whose name contains `w`'s id -/
+theorem resume_starts (g : Graph) (hsym : EdgeSym g) (s : State) (w : Nat) (out : Outcome) (fuel : Nat) (h : PInv g s) :
+    StartsOK g w (resume g s w out fuel).2 := by
+  unfold resume
+  split
+  · exact runLoop_starts g hsym w fuel s [] (StartsOK.nil g w)
+  · exact runLoop_starts g hsym w fuel s [] (StartsOK.nil g w)
+  · next n phase dir uid tag wait heq =>
+    have hid : g.idIn w n = true := (h.testOwn w n (by rw [heq]; rfl)).1
+    rw [resumeTest_eq]
+    have h0 := reportOutcome_starts g s w n phase uid wait out
+    have hs : ∀ wid q, StartsOK g w ((reportOutcome g s w n phase uid wait out).2 ++ [Event.sleep wid q]) := fun wid q =>
+      h0.append (fun e he => by simp only [List.mem_singleton] at he; rw [he]; trivial)
+    split
+    · exact continueAfter_starts g hsym w n phase dir fuel _ _ _ hid h0
+    · split
+      · exact hs _ _
+      · split
+        · exact hs _ _
+        · exact continueAfter_starts g hsym w n phase dir fuel _ _ _ hid h0
+  · exact StartsOK.nil g w
+  · exact StartsOK.nil g w
+
 end I2N.Trav
